@@ -146,6 +146,41 @@ def oracle(case, seed):
     return fails, o1, r1, lens
 
 
+def reused_list_oracle(seed):
+    """the prior a lens adds is the prior it was BUILT with: the caller's list (a template re-used for the next lens, a
+    list edited to build a second, wider analysis) may change afterwards; the term of the lens built first stays
+    -(x-mu)^2/(2 sigma^2) with the numbers it was given"""
+    import random
+    rng = random.Random(seed)
+    lt = rng.choice(["DdtGaussian", "DdtDdGaussian", "DsDdsGaussian", "IFUKinCov", "Mag"])
+    case = gen_case(rng, lt, 0)
+    if "err" in c03.evaluate(with_prior(case, None), seed)[0]:
+        return []
+    mine = [list(e) for e in case["prior_list"]] + [["lambda_mst", 1.0, 0.1], ["gamma_ppn", 1.0, 0.2]]      # the caller's own list
+    as_built = [list(e) for e in mine]
+    c1 = with_prior(case, mine)
+    lens = lc.make_lens(c1["ltype"], c1["cfg"], c1["data"])
+
+    def value():
+        np.random.seed(seed)
+        v = np.squeeze(lens.hyper_param_likelihood(c1["ddt"], c1["dd"], c1["dlum"], beta_dsp=c1["beta"], **copy.deepcopy(c1["hyper"])))
+        return float(v.real if np.iscomplexobj(v) else v)
+    try:
+        v0 = value()
+    except Exception:  # noqa
+        return []
+    # the caller moves on: the template entries get the next lens' numbers, another entry is appended
+    for e in mine:
+        e[1] = e[1] + 0.7
+        e[2] = e[2] * 2.0
+    mine.append(["lambda_mst", 0.2, 0.01])
+    v1 = value()
+    if not (v0 == v1 or (math.isnan(v0) and math.isnan(v1))):
+        return ["the prior term of a lens follows later edits of the caller's prior list: %r when built with %r, %r after the caller "
+                "re-used the list for %r" % (v0, as_built, v1, mine)]
+    return []
+
+
 def two_lens_oracle(rng, seed):
     """a prior on lens A must not change lens B's term"""
     from hierarc.Likelihood.lens_sample_likelihood import LensSampleLikelihood
@@ -301,6 +336,17 @@ def run(ctx, res):
         res.count("two_lens_sample")
         for f in fails:
             res.violation("LensSampleLikelihood:prior-not-local", f, {"two_lens": True})
+    for _ in range(ctx.n(12, 100)):
+        rs = rng.randrange(2 ** 30)
+        try:
+            fails = reused_list_oracle(rs)
+        except Exception as e:  # noqa
+            res.notes.append("re-used prior list check failed to run: %r" % e)
+            continue
+        res.evaluations += 1
+        res.count("reused_prior_list")
+        for f in fails:
+            res.violation("PriorLikelihood:follows-later-edits-of-the-list", f, {"reused_list": True, "seed": rs})
     if ctx.search_mode:
         return
     outs = run_driver(lines)
@@ -337,6 +383,9 @@ def replay(ctx, data):
         import random
         fails, _ = two_lens_oracle(random.Random(0), 0)
         return bool(fails), "two-lens oracle: %s" % (fails or "holds")
+    if data["input"].get("reused_list"):
+        fails = reused_list_oracle(data["input"]["seed"])
+        return bool(fails), "re-used prior list: %s" % (fails or "holds")
     if data["input"].get("emitted"):
         fails, _ = emitted_check(data["input"]["case"])
         return bool(fails), "emitted-prior oracle on the implementation: %s" % (fails or "holds")
